@@ -299,6 +299,10 @@ class Model:
     def func(self, dotted_module: str, name: str) -> Tuple[ModuleInfo, FuncNode]:
         mi = self.module(dotted_module)
         if name not in mi.functions:
+            # moved to another module and imported back under the same name: follow the import
+            r = self.resolve(mi, name)
+            if r and r[0] == 'func':
+                return r[1], r[2]
             raise AnalysisError('model', f'{dotted_module}.{name}', 'function not found (vanished anchor)')
         return mi, mi.functions[name]
 
